@@ -6,7 +6,7 @@
    every covered packet byte-for-byte from the repair packet and the other covered packets.
    Mask part (MC_FlexFec_mask.cfg): ALL k in 1 .. 110, n in 0 .. 110, no payloads. *)
 EXTENDS FlexFec
-CONSTANTS MaxK, MaxN, MaxLen, Shapes, Bases, Mutant
+CONSTANTS MaxK, MaxN, MaxLen, Shapes, Bases, MaskNs, Mutant
 VARIABLES batch, base, kk, nn
 vars == <<batch, base, kk, nn>>
 
@@ -32,7 +32,7 @@ Next == /\ Len(batch) < MaxK
 
 \* two levels so that the 110 x 111 pairs are spread over TLC's workers; nn = -1: not chosen yet
 InitMask == batch = <<>> /\ base = 0 /\ kk \in 1 .. 110 /\ nn = -1
-NextMask == nn = -1 /\ nn' \in 0 .. 110 /\ UNCHANGED <<batch, base, kk>>
+NextMask == nn = -1 /\ nn' \in MaskNs /\ UNCHANGED <<batch, base, kk>>      \* MaskNs = 0 .. 110 for ALL pairs
 
 WireOf(b) == Mat([i \in 1 .. Len(b) |-> Wire(b[i])], Len(b))
 K == Len(batch)
